@@ -202,6 +202,26 @@ class Check:
         allax = sorted({a for v in axioms_used.values() for a in v})
         self.cov["axioms_reported_by_Print_Assumptions"] = sorted(set(self.cov.get("axioms_reported_by_Print_Assumptions", [])) | set(allax))
         self.statements = statements
+        # thorough tier: re-check the compiled proofs with the independent checker
+        if self.tier == "thorough" and not getattr(self, "skip_coqchk", False):
+            rc2, out2, dt2 = sh(["coqchk", "-silent", "-o", "-Q", os.path.join(COQ, "theories"), "Clarabel", mod], timeout=3000, cwd=COQ)
+            m = re.search(r"\* Axioms:(.*?)\n\s*\n\* Constants/Inductives relying on type-in-type:(.*?)\n\s*\n\* Constants/Inductives relying on unsafe \(co\)fixpoints:(.*?)\n\s*\n\* Inductives whose positivity is assumed:(.*?)\n", out2, re.S)
+            info = {"module": mod, "rc": rc2, "seconds": round(dt2, 1)}
+            if m:
+                ax = [a.strip() for a in m.group(1).split("\n") if a.strip() and a.strip() != "<none>"]
+                info.update({"axioms": ax, "type_in_type": m.group(2).strip(), "unsafe_fixpoints": m.group(3).strip(), "assumed_positivity": m.group(4).strip()})
+                for k in ("type_in_type", "unsafe_fixpoints", "assumed_positivity"):
+                    if info[k] != "<none>":
+                        problems.append("coqchk reports %s: %s" % (k, info[k]))
+                for a in ax:
+                    short = a.split(" ")[0]
+                    if not (short in ALLOWED_AXIOMS or short.startswith(ALLOWED_PREFIXES) or any(short.endswith(x.split(".", 1)[-1]) for x in ALLOWED_AXIOMS)
+                            or short.startswith(("Coq.", "Flocq.", "Interval.", "Coquelicot.", "mathcomp."))):
+                        problems.append("coqchk: non-library axiom %s" % a)
+            if rc2 != 0:
+                problems.append("coqchk failed on %s: %s" % (mod, out2[-600:]))
+            self.cov.setdefault("coqchk", []).append(info)
+            self.log("coqchk %s rc=%d (%.0fs)" % (mod, rc2, dt2))
         return problems
 
     # -------------------------------------------------------------- harness
